@@ -363,6 +363,34 @@ def gen_decode(fam, tier, rng, n_docs=None):
             doc = [(k, v) for k, v in bm if k != "scope"] + [("scope", "a%sb" % ch)]
             if tier == "thorough" or code % 2 or ch in ",;+|":
                 out.append((decode_line(dfam, False, render(obj(doc), rng, plain=True)), "scope-single-character"))
+    # every string member with every printable ASCII character (and some others) inside and at either end, and with
+    # blank values: reported verbatim, never trimmed, folded or dropped
+    specials = [chr(c) for c in range(0x20, 0x7f)] + ["\t", "\n", "\r", "\x00", "\x7f", "\u00a0", "\u3000", "\u200b", "\ufeff", "é", "ß", "İ", "\U0001F600"]
+    blanks = ["", " ", "  ", "\t", "\n", " \u3000\t", "\u00a0"]
+    str_members = [k for k, v in bm if isinstance(v, str) and k not in ("token_type", "verification_uri", "verification_uri_complete", "error")]
+    for mi, k in enumerate(str_members):
+        for ci, ch in enumerate(specials):
+            if tier == "quick" and (ci + mi) % 3:
+                continue
+            for val in ("a%sb" % ch, "%sab" % ch, "ab%s" % ch):
+                doc = [(kk, (val if kk == k else vv)) for kk, vv in bm]
+                out.append((decode_line(dfam, False, render(obj(doc), rng, plain=True)), "string-member-character"))
+        for val in blanks:
+            doc = [(kk, (val if kk == k else vv)) for kk, vv in bm]
+            out.append((decode_line(dfam, False, render(obj(doc), rng, plain=True)), "string-member-blank"))
+    # every numeric member at the powers of two and ten and their neighbours (as integers, and a few as floats)
+    num_members = [k for k, v in bm if isinstance(v, int) and not isinstance(v, bool)]
+    nums = sorted(set([0, 1, 2, 3, 5, 59, 60, 3599, 3600, 86400] + [2 ** e + d for e in range(0, 65) for d in (-1, 0, 1)] + [10 ** e + d for e in range(0, 20) for d in (-1, 0, 1)]
+                      + [-1, -2, -2 ** 31, -2 ** 63, -2 ** 63 - 1, -10 ** 12]))
+    for mi, k in enumerate(num_members):
+        for ni, n in enumerate(nums):
+            if tier == "quick" and (ni + mi) % 2 and abs(n) > 4:
+                continue
+            doc = [(kk, (n if kk == k else vv)) for kk, vv in bm]
+            out.append((decode_line(dfam, False, render(obj(doc), rng, plain=True)), "numeric-member-boundary"))
+        for raw in ("0.0", "1.0", "5.0", "3600.5", "1e3", "1E3", "1e0", "-0", "-0.0", "0e0", "1.0e2", "18446744073709551615.0", "1e19", "1e20", "4294967296e0"):
+            doc = [(kk, (Raw(raw) if kk == k else vv)) for kk, vv in bm]
+            out.append((decode_line(dfam, False, render(obj(doc), rng, plain=True)), "numeric-member-float-form"))
     # vendor members: delivered to a map-typed extension whatever their value, ignored otherwise
     if efam != "error":
         for vn in VENDOR_NAMES:
